@@ -368,6 +368,7 @@ def run(ctx):
         return
     acc = dict(st={}, dist={}, nt=set(), flags={}, bad=[])
     ctx.coverage["rule"] = RULE
+    n_corpus = 0
 
     if ctx.replay:
         s = load_replay(ctx.replay)
@@ -390,7 +391,7 @@ def run(ctx):
                     corpus.append(load_replay(os.path.join(cdir, fn)))
         if corpus:
             _merge(acc, _stats(evaluate(corpus)))
-        ctx.coverage["corpus"] = len(corpus)
+        n_corpus = len(corpus)
         # 2. generated scenarios
         target = N_QUICK if ctx.tier == "quick" else N_THOROUGH
         jobs = [(ctx.seed, i, min(i + CHUNK, target)) for i in range(0, target, CHUNK)]
@@ -424,6 +425,8 @@ def run(ctx):
         samples.append(G.render(s))
     ctx.coverage.update(
         engine_slice=eng_cov,
+        corpus=n_corpus,
+        monitor_failures=sum(1 for b_ in acc["bad"] if b_[1]) + (eng_cov.get("monitor_failures") or 0),
         evaluations=st.get("n", 0),
         distinct_nontrivial=len(acc["nt"]),
         traces_validated_against_impl=st.get("agree", 0),
